@@ -46,7 +46,11 @@ def evaluate(case):
         worst[0] = max(worst[0], em.compare_with_rebuild(m, m.tree, mt, where=where))
         em.check_ghosts(m, where, structural=False, values=True)
 
-    m = em.Machine(case, on_step=on_step).run()
+    def probe(m, t, partial, label):
+        if label.startswith("after-remove_subtree"):
+            em.compare_with_rebuild(m, t, partial.to_mtree(), where="inside an edit, " + label)
+
+    m = em.Machine(case, on_step=on_step, probe=probe).run()
     classes = set(m.classes)
     for a in set(m.applied):
         classes.add("op:" + a)
